@@ -83,6 +83,30 @@ CHECKS['C08'] = dict(
     note='Well-formedness = docs/json.rst + loaders accept; Raman and lumped-loss fibres below max length in the main '
          'workload; listed findings in known_findings.json.', ref='3/C08')
 
+CHECKS['C09'] = dict(
+    technique='runtime monitor: independent OMS walker over the designed network at the post-design quiescent point '
+              '(gain budget, documented power rule, operator gains) + propagated design comb compared with the '
+              'design powers at every amplifier / ROADM output',
+    text='Every amplifier of every single-band OMS of generated designs is re-derived by an independent walker written '
+         'from docs/json.rst and the OFC 19 rule; the design load is then propagated and the observed signal powers '
+         'compared with reference + offset - VOA. Exploration.',
+    note='Multiband and Raman OMS skipped (counted); offsets on rounding ties and automatic-VOA models not judged for '
+         'the rule; one listed known finding (step coarsening).', ref='3/C09')
+CHECKS['C10'] = dict(
+    technique='runtime monitor: recorded set_one_amplifier / select_edfa calls judged by an independent oracle '
+              '(permitted set from the documents, data-sheet capability, reference NF model)',
+    text='Every amplifier selection made by auto-design on synthetic overlapping libraries with restrictions at '
+         'three levels is recorded and re-judged: membership, Raman rule, capability, NF optimality. Exploration.',
+    note='Margins within 1e-9 dB of zero and NF ties not judged; NF optimality for gain-only NF models; multiband '
+         'auto-selection is a listed known finding.', ref='3/C10')
+CHECKS['C11'] = dict(
+    technique='runtime monitor: returned routes of the real path computation judged by an independent exhaustive '
+              'ROADM-level search (validity, include order, optimal fibre length, STRICT/LOOSE semantics, reverse path)',
+    text='Each request of generated batches on generated meshes is compared with the optimum over all simple '
+         'constraint-satisfying routes enumerated independently. Exploration.',
+    note='Whole-kilometre fibre lengths (exact ties); undefined LOOSE/STRICT mixes not judged; one listed known '
+         'finding (explicit route ignores order inside an OMS).', ref='3/C11')
+
 NOT_APPLICABLE = {
 }
 
